@@ -4,7 +4,7 @@ sys.path.insert(0, os.path.join(HERE, 'lib'))
 import vrun, irb
 
 META = dict(
-    functions=['mmd.c: mmd_assign_ambidextrous_tokens_in_block, mmd_engine_reset', 'writer.c: footnote_free, link_free, meta_free, read_table_column_alignments', 'token.c: token_free, token_tree_free (pool disabled)', 'scanners.c: all 29 scan_* functions (Engine B: clang -O1 IR -> flat C, translation validated against the real functions on tests/MMD6Tests every run)'],
+    functions=['mmd.c: mmd_assign_ambidextrous_tokens_in_block, mmd_engine_reset', 'xml.c: xml_extract_named_attribute, xml_extract_attribute', 'writer.c: footnote_free, link_free, meta_free, read_table_column_alignments', 'token.c: token_free, token_tree_free (pool disabled)', 'scanners.c: all 29 scan_* functions (Engine B: clang -O1 IR -> flat C, translation validated against the real functions on tests/MMD6Tests every run)'],
     stubs=['byte arena MEM[] with an explicit valid window [buf, buf+len] (NUL included) for the IR-derived scanners'],
     assumptions=['input is a NUL-terminated buffer; every byte value allowed'],
     outside=['epub.c, zip.c/miniz.c, textbundle.c, packaging, uthash macro bodies, argtable3, file.c I/O', 'defects that need more than N bytes or K tokens to trigger', 'interaction between units beyond the span invariant of C15'],
@@ -44,6 +44,12 @@ def harnesses(tier):
                    unwind=56, unwindset=['main.1:1200'], timeout=900, mem_gb=8, slice=True,
                    bounds='separator line with 0..52 cells (the array holds 48), any alignment answer',
                    desc='read_table_column_alignments: column count stays inside table_alignment[48], nothing behind the array is written'))
+    XN = 5 if tier == 'quick' else 7
+    hs.append(dict(name='c01_xml_attr', src='c01/xmlattr.c', defs=dict(N=XN),
+                   units=[dict(src='repo:xml.c', remove=['xml_scan_wsnl', 'xml_scan_attribute_name', 'xml_scan_until_value', 'xml_scan_value'], cflags=['-include', 'vh_libc.h'])],
+                   unwind=XN + 4, unwindset=['xml_extract_named_attribute.2:4'], timeout=900, mem_gb=8, slice=True, replay=False,
+                   bounds='source of %d arbitrary bytes, scanner answers arbitrary (inside the text), searched name "text"' % XN,
+                   desc='xml_extract_named_attribute / xml_extract_attribute: heap copies never over-read or over-written, whatever the scanners report'))
     hs.append(dict(name='c01_reset_ownership', src='c05/reset.c', defs=dict(OWNERSHIP=1, DS_CAP=8), pool_off=True,
                    units=['repo:mmd.c', 'repo:writer.c', 'repo:token.c', 'repo:stack.c', 'repo:object_pool.c', 'repo:char.c', 'common/ds_model.c'],
                    unwind=12, unwindset=['token_free:5', 'token_tree_free:5'], timeout=900, mem_gb=8, slice=True,
